@@ -34,6 +34,9 @@ def battery(case):
             return "exc:" + out.detail[0]
         if out.kind == lib.WEIRD:
             return "weird:" + str(out.detail)
+        if out.kind in (lib.DOM, lib.MISS):
+            # which sub-expression / which coordinate the library's own error names is part of the outcome
+            return out.kind + ":" + str(out.detail)
         return out.kind
     res = []
 
